@@ -109,6 +109,43 @@ SHAPES = ["out.txt", "./out.txt", "new/out.txt", "n1/n2/n3/out.txt", "a.b/c.d.tx
 NONCANON = ["a../out.txt", "x/../y/out.txt", "new/a../o.txt"]
 
 
+def concurrent_extras_case(args):
+    """several tasks of one process run and finish at the same time; each creates, besides its declared output, an additional
+    file in the same sub-directory, which does not exist under the working directory yet (logs/<name>.log): every one of
+    them ends up at the same relative location under the working directory"""
+    seed, i = args
+    rng = random.Random(seed * 472882049 + i)
+    L = rng.randint(4, 12)
+    sp = t3.Spec(maxtasks=L, bufsize=rng.choice([1, 128]))
+    paths = ["x%02d.txt" % j for j in range(L)]
+    for p in paths:
+        sp.files[p] = p + "\n"
+    s = sp.src("src", paths)
+    sub = rng.choice(["logs", "logs/deep", "rep/a/b"])
+    sp.proc(t3.RawProc("w", "cat {i:a} > {o:o} && mkdir -p %s && echo extra of {i:a|basename} > %s/{i:a|basename}.log" % (sub, sub),
+                       ins=[("a", [(s, "out")])], outs=[("o", "{i:a}.w")]))
+    sc = t3.Scratch()
+    try:
+        sc.plant(sp.files)
+        impl = t3.run_impl(sc, sp, timeout=60, yield_seed=(rng.randint(1, 10**6), rng.choice([2000, 20000, 40000])))
+        problems = []
+        if impl["rc"] != 0 or not impl["returned"]:
+            problems.append("the workflow fails (exit %s): %s" % (impl["rc"], impl["stderr"][-200:]))
+        else:
+            files = t3.data_files(impl["fs"])
+            missing = [p for p in paths if files.get("%s/%s.log" % (sub, p)) != "extra of %s\n" % p]
+            if missing:
+                problems.append("%d tasks ran at the same time, each wrote %s/<input>.log in its working directory; after the run %d of these additional files are not at %s/ under the working directory: %s"
+                                % (L, sub, len(missing), sub, missing[:4]))
+            lost = [p for p in paths if files.get(p + ".w") != p + "\n"]
+            if lost:
+                problems.append("declared outputs missing or wrong: %s" % lost[:3])
+        return {"shape": "concurrent-extras", "out": "{i:a}.w", "in": paths[0], "extra": ["%s/<input>.log" % sub], "rc": impl["rc"], "canonical": True, "ok": impl["rc"] == 0,
+                "problems": problems, "stderr": impl["stderr"][-200:], "spec": sp.text(), "bufsize": sp.bufsize}
+    finally:
+        sc.close()
+
+
 def run(rep, tier, seed):
     proved = vlib.prove(rep, MODULE, THEOREMS)
     ok, msg = vlib.build_ocaml()
@@ -126,6 +163,7 @@ def run(rep, tier, seed):
     # T3: real one-task workflows for each path shape
     cases = [(s, i, seed) for i, s in enumerate(SHAPES * (1 if tier == "quick" else 6) + NONCANON + ["extra-placeholder"])]
     results = t3.run_many(t3_case, cases)
+    results += t3.run_many(concurrent_extras_case, [(seed, i) for i in range(10 if tier == "quick" else 120)])
     found = False
     kf = vlib.known_findings("C13")
     for r in results:
@@ -161,7 +199,7 @@ def run(rep, tier, seed):
         rep.violation("; ".join(what), {"kind": "correspondence", "theorem_or_correspondence": "PropC13 / T2 paths", "disagreements": rep.notes.get("disagreements", [])}, nofail=True)
     rep.cov["evaluations"] = len(paths) + len(results)
     rep.cov["distinct_nontrivial"] = len(set(paths)) + len({r["shape"] for r in results})
-    rep.cov["rule"] = "T2: every path of a grammar (prefix ./ ../ ../../ / x segments incl. '..'-like and place-holder-like ones, depth <= 3 or 4) plus random long paths through NewFileIP(..).TempPath/TempDir/FifoPath, the decode of FinalizePaths and splitAllPaths, against the Coq model; T3: one producer + one consumer workflow per output-path shape with random input location and additional files, checked against the property statement itself"
+    rep.cov["rule"] = "T2: every path of a grammar (prefix ./ ../ ../../ / x segments incl. '..'-like and place-holder-like ones, depth <= 3 or 4) plus random long paths through NewFileIP(..).TempPath/TempDir/FifoPath, the decode of FinalizePaths and splitAllPaths, against the Coq model; T3: one producer + one consumer workflow per output-path shape with random input location and additional files, checked against the property statement itself; 4-12 tasks finishing together (seeded delays at the hook points) that each leave an additional file in the same new sub-directory"
     rep.cov["samples"] = [paths[5], paths[len(paths) // 2], {k: results[0][k] for k in ("shape", "in", "extra", "rc", "problems")}]
     rep.notes["input_distribution"] = {"grammar_paths": len(paths), "invalid_paths": sum(1 for x in impl if x == "INVALID"), "t3_shapes": len(SHAPES), "t3_runs": len(results),
                                        "t3_noncanonical": len(NONCANON)}
